@@ -31,6 +31,14 @@ func Desc(b *Blob) ocispec.Descriptor {
 	return ocispec.Descriptor{MediaType: b.MediaType, Digest: digest.Digest(b.Digest()), Size: int64(len(b.Content()))}
 }
 
+func descOf(b *Blob, variant bool) ocispec.Descriptor {
+	d := Desc(b)
+	if variant {
+		d.MediaType = ""
+	}
+	return d
+}
+
 // ErrName maps an error to the small enum shared with the model.
 func ErrName(err error) string {
 	switch {
@@ -68,11 +76,11 @@ func Do(ctx context.Context, st *oci.Store, s *Script, o Op, dir string) error {
 		b := s.Blob(o.Blob)
 		return st.Push(ctx, Desc(b), bytes.NewReader(b.BadContent()))
 	case "tag":
-		return st.Tag(ctx, Desc(s.Blob(o.Blob)), RefName(o.Ref))
+		return st.Tag(ctx, descOf(s.Blob(o.Blob), o.Variant), RefName(o.Ref))
 	case "untag":
 		return st.Untag(ctx, RefName(o.Ref))
 	case "delete":
-		return st.Delete(ctx, Desc(s.Blob(o.Blob)))
+		return st.Delete(ctx, descOf(s.Blob(o.Blob), o.Variant))
 	case "saveindex":
 		return st.SaveIndex()
 	}
